@@ -12,3 +12,5 @@ func verifYield(site string) {}
 func verifLock(mu *sync.RWMutex, site string) {}
 
 func verifRLock(mu *sync.RWMutex, site string) {}
+
+func verifMutex(mu *sync.Mutex, site string) {}
